@@ -553,6 +553,8 @@ def ann_probe():
     parts.append('@dataclass\nclass Outer1:\n    class PlainInside:\n        plain_inside: int = 1\n        plain_inside_2: int\n    field_after: int = 2')
     parts.append('class Outer2:\n    @dataclass\n    class DataInside:\n        data_inside: int = 1\n    attr_after: int = 2')
     parts.append('@dataclass\nclass Outer3:\n    def meth(self, a: int = 1) -> None:\n        in_method_of_dataclass: int = 1\n    lam = lambda x: x\n    after_lambda: int = 3')
+    parts.append('@dataclass\nclass ProtectedOuter:\n    class ProtectedInner(NamedTuple):\n        inner_field: int = 1\n        class ProtectedInnermost(TypedDict):\n            innermost_key: int\n    outer_field: int = 2\n    outer_other: int')
+    parts.append('class PlainAfterProtected:\n    plain_after: int = 3\n    plain_after_2: int')
     parts.append('def outer_fn():\n    class InFunction:\n        attr_in_fn_class: int = 1\n    @dataclass\n    class DataInFunction:\n        field_in_fn: int = 1\n    local_after: int = 2')
     return '\n'.join(parts) + '\n'
 
